@@ -430,6 +430,8 @@ def expected_custom(v, r):
 
 def run_ctor(ctx, d):
     """d = {kind:'ctor', cls, kwargs:{arg: encoded}, focus:[args under test]}"""
+    if d["cls"] not in ctx.classes:     # (translator stopped: only the live registry is known)
+        return [], [], [("ctor-skipped", "class-unknown")], {}
     cls = ctx.classes[d["cls"]]
     ci = ctx.cinfo.get(d["cls"])
     kwargs = build_kwargs(ctx, d)
@@ -580,6 +582,8 @@ def apply_named(ctx, ci, fname, v):
 
 def run_attr(ctx, d):
     """d = {kind:'attr', cls, base:{kwargs}, sets:[[prop, encoded value], ...]}: generic property assignments"""
+    if d["cls"] not in ctx.classes:
+        return [], [], [("attr-skipped", "class-unknown")], {}
     cls = ctx.classes[d["cls"]]
     kwargs = {k: dec(v, ctx.odfdo) for k, v in d.get("base", {}).items()}
     inst = cls(**kwargs)
@@ -671,6 +675,24 @@ def run_document(ctx, d):
                 except Alarm:
                     hist.append(("document", "timeout"))
             seen[q] = depth
+    # receivers whose class overrides an access path (Table, Row ... found by introspection): heterogeneous queries
+    nrecv = 0
+    for node in tree.iter():
+        if not isinstance(node.tag, str) or nrecv >= 6:
+            continue
+        k = ctx.registry.get(node.tag)
+        if k is None or not overridden_paths(k, E) or len(node) == 0:
+            continue
+        nrecv += 1
+        r = E.from_tag(node)
+        for qy in ("*", "descendant::*"):
+            try:
+                found = with_timeout(lambda: r.get_elements(qy), 10)
+            except Exception:
+                continue
+            for f in found[:60]:
+                cases.append("Dispatch %s %s" % (coq_str(priv(f).tag), coq_str(type(f).__name__)))
+                hist.append(("document", "receiver-override"))
     # typed finders of Element that take no argument and return elements
     import inspect
     for name in sorted(dir(E)):
@@ -696,7 +718,175 @@ def run_document(ctx, d):
     return cases, fails, hist, dict(tags=len(count))
 
 
-RUNNERS = {"dispatch": run_dispatch, "ctor": run_ctor, "attr": run_attr, "document": run_document}
+# ---- access paths on EVERY receiver class, heterogeneous results -----------------------------------------------------
+
+PATH_NAMES = ("get_elements", "get_element", "children", "xpath", "parent", "clone", "root", "_filtered_elements", "_filtered_element",
+              "from_tag", "from_tag_for_clone", "traverse", "get_rows", "get_cells", "get_columns")
+
+# a fragment that mixes many registered (and unregistered) tags, at depth 1..3
+MIXED = ('<table:table-column/><table:table-row><table:table-cell><text:p>x<text:span>y</text:span><text:line-break/></text:p>'
+         '</table:table-cell><table:covered-table-cell/></table:table-row><table:table-header-rows><table:table-row>'
+         '<table:table-cell/></table:table-row></table:table-header-rows><text:p>z<text:a xlink:href="u">l</text:a><text:s/></text:p>'
+         '<text:h text:outline-level="1">h</text:h><text:list><text:list-item><text:p>i</text:p></text:list-item></text:list>'
+         '<draw:frame><draw:text-box><text:p>b</text:p></draw:text-box><draw:image xlink:href="p.png"/></draw:frame>'
+         '<text:section><text:note text:note-class="footnote"><text:note-citation>1</text:note-citation><text:note-body/></text:note>'
+         '<text:unknown-odfdo/></text:section><table:table table:name="inner"><table:table-column/><table:table-row><table:table-cell/>'
+         '</table:table-row></table:table>')
+
+
+def overridden_paths(cls, Element):
+    out = set()
+    for k in cls.__mro__:
+        if k is Element:
+            break
+        out.update(n for n in PATH_NAMES if n in k.__dict__)
+    return sorted(out)
+
+
+def run_paths(ctx, d):
+    """d = {kind:'paths', tag: qname of the receiver}: the receiver wraps <tag>MIXED</tag>; every access path it offers is
+    asked for heterogeneous node sets; every wrapper returned must have the class the registry gives for ITS OWN node's tag
+    (judged in Coq), and all paths must agree on the same node."""
+    E = ctx.Element
+    q = d["tag"]
+    xml = "<%s>%s</%s>" % (q, MIXED, q)
+    recv = E.from_tag(xml)
+    rnode = priv(recv)
+    tree = rnode.getroottree()
+    seen, fails, obs = {}, [], []
+
+    def see(path, e, base=None):
+        if not isinstance(e, E):
+            return
+        n = priv(e)
+        obs.append((path, n.tag, type(e).__name__))
+        if base is None:
+            try:
+                key = tree.getpath(n)
+            except ValueError:
+                return
+            seen.setdefault(key, {}).setdefault(type(e).__name__, path)
+
+    queries = ["*", "descendant::*", "table:table-row | table:table-column | text:p", "descendant::text:p | descendant::table:table-cell | descendant::draw:frame",
+               "*[position() > 1]", "descendant::*[not(self::table:table-column)]", "descendant::table:table-row/*", "descendant-or-self::*"]
+    for qy in queries:
+        for name in ("get_elements", "xpath"):
+            try:
+                r = with_timeout(lambda: getattr(recv, name)(qy), 10)
+            except Alarm:
+                continue
+            except Exception as e:
+                fails.append(("path-exception/%s.%s" % (type(recv).__name__, name), "%s(%r) on <%s> raised %r" % (name, qy, q, e)))
+                continue
+            for x in r:
+                see("%s(%s)" % (name, qy), x)
+        try:
+            see("get_element(%s)" % qy, recv.get_element(qy))
+            see("get_element(%s[last()])" % qy, recv.get_element("(%s)[last()]" % qy))
+        except Exception as e:
+            fails.append(("path-exception/%s.get_element" % type(recv).__name__, "get_element(%r) on <%s> raised %r" % (qy, q, e)))
+    kids = recv.children
+    for k in kids:
+        see("children", k)
+        for g in k.children:
+            see("children.children", g)
+            see("children.children.parent", g.parent)
+            for gg in g.children:
+                see("children^3", gg)
+        see("child.clone", k.clone, base="clone")
+        see("child.parent", k.parent)
+        for x in k.get_elements("descendant::* | following-sibling::*"):
+            see("child.get_elements(mixed)", x)
+    rc = recv.clone
+    see("clone", rc, base="clone")
+    for x in rc.get_elements("descendant::*"):
+        see("clone.get_elements(descendant::*)", x, base="clone")
+    for x in rc.children:
+        see("clone.children", x, base="clone")
+    # typed finders / iterators that the class offers without arguments
+    for name in ("traverse", "get_rows", "get_columns", "get_cells", "get_paragraphs", "get_tables", "get_frames", "get_lists", "get_spans"):
+        fn = getattr(recv, name, None)
+        if fn is None:
+            continue
+        try:
+            r = with_timeout(lambda: list(itertools.islice(iter(fn()), 50)), 10)
+        except Exception:
+            continue
+        for x in r:
+            if isinstance(x, list):
+                for y in x:
+                    see(name, y, base="copy")
+            else:
+                see(name, x, base="copy")
+    for key, by in seen.items():
+        if len(by) > 1:
+            fails.append(("paths-disagree/%s" % type(recv).__name__,
+                          "receiver <%s> (%s): node %s is %s" % (q, type(recv).__name__, key, ", ".join("%s via %s" % (c, pth) for c, pth in sorted(by.items())))))
+    cases = ["Dispatch %s %s" % (coq_str(tag), coq_str(cls)) for _, tag, cls in obs]
+    return cases, fails, [("paths", "override" if overridden_paths(type(recv), E) else "inherited")] * 1 + [("paths-obs", "n")] * 0, obs
+
+
+# ---- mixed content: whitespace-only text nodes survive serialize -> from_tag -----------------------------------------
+
+WS_PATTERNS = [
+    # (text of the element, [(child text, child tail), ...]) -- children are text:span, the last one nests another
+    (None, [("Hello", " "), ("World", None)]),
+    (" ", [("a", "\n"), ("b", "  "), ("c", " ")]),
+    ("\n  ", [("a", "\n  "), ("b", "\n")]),
+    ("t", [(" ", " "), (None, "\t"), ("x", " tail ")]),
+    (None, [(None, " "), (None, " "), (None, None)]),
+]
+
+
+def run_mixed(ctx, d):
+    """d = {kind:'mixed', cls, pattern: index}: an instance whose content is mixed (text / elements / whitespace-only text and
+    tail nodes, also nested) must keep its infoset through serialize -> bare lxml parse and serialize -> Element.from_tag"""
+    if d["cls"] not in ctx.classes:
+        return [], [], [("mixed-skipped", "class-unknown")], {}
+    cls = ctx.classes[d["cls"]]
+    kwargs = {k: dec(v, ctx.odfdo) for k, v in d.get("base", {}).items()}
+    try:
+        inst = with_timeout(lambda: cls(**kwargs))
+    except Exception:
+        return [], [], [("mixed-skipped", "ctor")], {}
+    el = priv(inst)
+    text, kids = WS_PATTERNS[d["pattern"]]
+    SP = "{%s}span" % ctx.ns["text"]
+    for c in list(el):
+        el.remove(c)
+    el.text = text
+    last = None
+    for ct, tail in kids:
+        last = etree.SubElement(el, SP)
+        last.text = ct
+        last.tail = tail
+    if last is not None:        # nested container with white space at start / between / end
+        inner = etree.SubElement(last, SP); inner.text = " "; inner.tail = " "
+        inner2 = etree.SubElement(last, SP); inner2.text = "n"; inner2.tail = "\n"
+    before = c14n(el)
+    seq = lambda n: [(x.tag, x.text, x.tail) for x in n.iter()]
+    s_before = seq(el)
+    fails = []
+    xml = inst.serialize()
+    try:
+        bare = ctx.bare_parse(xml)
+    except etree.XMLSyntaxError as e:
+        return [], [("not-wellformed/%s" % d["cls"], str(e))], [("mixed", "x")], {}
+    if c14n(bare) != before:
+        fails.append(("serialize-infoset-mixed/%s" % d["cls"], "mixed content: C14N of the parsed serialisation differs"))
+    back = ctx.Element.from_tag(xml)
+    if c14n(priv(back)) != before:
+        a, b = s_before, seq(priv(back))
+        diff = next(((x, y) for x, y in zip(a, b) if x != y), (len(a), len(b)))
+        fails.append(("reparse-infoset-mixed/%s" % d["cls"],
+                      "mixed content %r + %r: text/tail sequence after serialize -> from_tag differs, first difference %r" % (text, kids, diff)))
+    if c14n(el) != before:
+        fails.append(("observation-mutates/%s" % d["cls"], "serialising changed the element"))
+    cases = ["Dispatch %s %s" % (coq_str(priv(back).tag), coq_str(type(back).__name__))]
+    return cases, fails, [("mixed", "pattern-%d" % d["pattern"])], dict(xml=xml)
+
+
+RUNNERS = {"dispatch": run_dispatch, "ctor": run_ctor, "attr": run_attr, "document": run_document, "paths": run_paths, "mixed": run_mixed}
 
 
 # ------------------------------------------------------------------------------------------------ generation
@@ -715,6 +905,13 @@ def gen_cases(ctx, tier, rng):
               "style:paragraph-properties", "number:number", "presentation:notes"]:
         for depth in (1, 3):
             ds.append(dict(kind="dispatch", tag=q, depth=depth))
+    # A2. every class as RECEIVER of heterogeneous queries (its own tag around a mixed fragment); A3. mixed content round trip
+    for q in tags:
+        ds.append(dict(kind="paths", tag=q))
+    for cname in sorted(ctx.classes):
+        base = {k: enc(v) for k, v in BASE.get(cname, {}).items()}
+        for i in range(len(WS_PATTERNS)):
+            ds.append(dict(kind="mixed", cls=cname, base=base, pattern=i))
     # B. constructors: every argument alone over its type-directed values, then combinations
     for cname in sorted(ctx.classes):
         ci = ctx.cinfo.get(cname)
@@ -847,7 +1044,13 @@ def run(tier, seed, replay=None):
         if len(samples) < 3 and d["kind"] == "ctor" and d["focus"]:
             samples.append(d)
     # 3. Coq evaluates the model on everything observed
-    bad, errors = common.run_shards(HEADER, cases, "chk", "c12", shard=1500) if cases else ({}, [])
+    # (identical observation terms are evaluated once; every owner of a failing term is reported)
+    uniq, first = [], {}
+    for ci, c in enumerate(cases):
+        if c not in first:
+            first[c] = len(uniq); uniq.append(c)
+    ubad, errors = common.run_shards(HEADER, uniq, "chk", "c12", shard=1500) if uniq else ({}, [])
+    bad = {ci: ubad[first[c]] for ci, c in enumerate(cases) if first[c] in ubad}
     fidelity = sum(1 for c in bad.values() if c == 4)
     coq_fail = {}
     for ci, code in bad.items():
@@ -905,8 +1108,11 @@ def run(tier, seed, replay=None):
                     "class identity through children / get_elements / get_element / xpath / parent / root / clone / typed finders: observed pairs compared in Coq with the model registry, for the generated trees (depth <= 3) and the sample documents only",
                     "arguments stored through hand-written properties, under conditions on other arguments, or used in other ways (table kinds StoredCond / NonProp / Unrecognised): differential testing only"],
         level_note="proof for the mechanisms and the generated tables; testing (not proof) for per-class serialisation / re-parse / traversal behaviour",
-        evaluations=len(cases), distinct_nontrivial=distinct,
+        evaluations=len(cases), distinct_nontrivial=distinct, coq_terms_evaluated=len(uniq),
+        receivers_overriding_an_access_path=sorted(n for n, k in ctx.classes.items() if overridden_paths(k, ctx.Element)),
         rule="A: every registered tag and own tag (+9 unregistered ones) at depth 1,2,3 through from_tag(str/lxml), children, get_elements, get_element, xpath, parent, root, clone; "
+             "A2: every registered tag as RECEIVER around a fragment mixing ~25 tags at depth 1-3: get_elements/xpath/get_element with 8 heterogeneous queries (*, descendant::*, unions, positional), children to depth 3, parent, clone, typed finders/iterators; every wrapper's class judged in Coq against its own node's tag, and all paths must agree on a node (receivers overriding a path are found by introspection); "
+             "A3: every class with 5 mixed-content patterns (whitespace-only text/tail nodes between siblings, at start/end, nested): C14N through serialize -> lxml and serialize -> from_tag; "
              "B: every class: default constructor, every argument alone over type-directed values (annotation-driven; explicit lists for validated arguments), random combinations, all arguments at once; "
              "C: every generic property: fixed and random assignment sequences over None/bool/str/'true'/int/float/unicode; "
              "D: every element (first %d per tag) of content/styles/meta of every sample and template through from_tag, get_elements, parent, children and the zero-argument typed finders. "
